@@ -92,7 +92,8 @@ def legacy_stage(ctx, sd, rnd, mc):
     scns.append(dict(id=base + 900000, n=1, mode="uuid", home=1, plan=["s404", "match", "s404", "s404", "s404"],
                      steps=[{"b": 1, "k": "match"}], rseed=ctx.seed, req="exact", origin="crafted", craft="loc_eol",
                      path="legacy"))
-    # re-confirms KF-C18-2 on every run
+    # regression scenario for KF-C18-2 (repaired by 139e9e0): a remote sends the honest manifest without its
+    # final newline; it must be refused, not normalised
     scns.append(dict(id=base + 900001, n=2, mode="pdh", home=0, plan=["s404", "match", "s404", "s404", "s404"],
                      steps=[{"b": 0, "k": "s404"}, {"b": 2, "k": "s404"}, {"b": 1, "k": "match"}], rseed=ctx.seed,
                      req="exact", origin="crafted", craft="no_final_newline", path="legacy"))
@@ -146,15 +147,13 @@ def run(ctx):
     ctx.extra["legacy_traces"] = len(vlib.split_traces(levents))
     traces = vlib.split_traces(events)
     ctx.evaluations = len(traces)
-    def kf2(t):
-        return t[0].get("path") == "legacy" and any(e["ev"] == "done" and e.get("shape") == "no_final_newline" for e in t)
     # impl-model prediction vs. real outcome, where what was really sent is what the model planned
     # (a "mismatch" whose tampering only touched hints still hashes to the requested value)
     nd = nu = 0
     for t in traces:
         s = by_id.get(t[0].get("scn"))
         d = [e for e in t if e["ev"] == "done"]
-        if s and s["origin"] == "model" and s["req"] in ("exact", "hints") and d and not kf2(t):
+        if s and s["origin"] == "model" and s["req"] in ("exact", "hints") and d:
             planned = {e["b"]: e["k"] for e in t if e["ev"] == "answer"}
             same = all(s["plan"][b] == k or k == "cancelled" for b, k in planned.items())
             if same and t[0].get("unused_steps"):
@@ -165,24 +164,8 @@ def run(ctx):
                     ctx.drift.append("FedFetch.tla predicted %s, code returned ok=%s (scn %s)" % (s["expect"], d[0]["ok"], s["id"]))
     if nu:
         ctx.drift.append("%d model scenarios ended before all steps were used" % nu)
-    # JUDGE.  Legacy-path traces in which a remote sent a manifest without final newline fall into the known
-    # finding KF-C18-2: ALL of them are judged by the contract with that one relation waived (FedFetchTraceKF),
-    # a seeded sample also by the contract proper, which re-confirms the finding on every run.
-    main, kfall = [], []
-    for t in traces:
-        (kfall if kf2(t) else main).append(t)
-    sample = list(kfall)
-    rnd.shuffle(sample)
-    sample = sample[:6 if ctx.thorough else 3]
-    ctx.extra["kf2_traces_judged_with_waiver"] = len(kfall)
-    ctx.judge(sd, "FedFetchTrace", "Judge_FedFetch.cfg", [e for t in main for e in t], scenario_of=by_id, timeout=2400,
+    ctx.judge(sd, "FedFetchTrace", "Judge_FedFetch.cfg", events, scenario_of=by_id, timeout=2400,
               max_rejects=25 if ctx.thorough else 6)
-    if sample:
-        ctx.judge(sd, "FedFetchTrace", "Judge_FedFetch.cfg", [e for t in sample for e in t], scenario_of=by_id,
-                  timeout=600, max_rejects=len(sample) + 1)
-    if kfall:
-        ctx.judge(sd, "FedFetchTraceKF", "Judge_FedFetch.cfg", [e for t in kfall for e in t], scenario_of=by_id,
-                  timeout=1200, max_rejects=6)
     nontrivial = set()
     nrew = 0
     for t in traces:
